@@ -122,9 +122,11 @@ class Report:
             for b in self.broken:
                 print("ANALYSIS-BROKEN property=%s %s" % (self.prop, b))
             ev["coverage"]["analysis_broken"] = self.broken
-            with open(os.path.join(EVIDENCE_DIR, self.prop + ".json"), "w") as f:
-                json.dump(ev, f, indent=1)
-            return 2
+            if not self.violations:
+                with open(os.path.join(EVIDENCE_DIR, self.prop + ".json"), "w") as f:
+                    json.dump(ev, f, indent=1)
+                return 2
+            # a violation found next to a vanished anchor is still reported as a violation
         with open(os.path.join(EVIDENCE_DIR, self.prop + ".json"), "w") as f:
             json.dump(ev, f, indent=1)
         for (rule, site, what) in self.known_hit:
